@@ -60,3 +60,13 @@ CHECKS.update({
     note=R1NOTE + ' harness/positions.py for line/column arithmetic.',
     technique='Hypothesis property-based testing; parallel tree walk against a reference parse with token extents'),
 })
+CHECKS.update({
+ 'C09': dict(
+    text='Real fragment streams of five printer configurations over one to three chained sources, and Hypothesis-generated well-formed synthetic streams (newlines anywhere in fragment text, implied/explicit/unmapped positions, renamed fragments, several sources, NotImplemented), each with normalisation on and off, are written through sourcemap.write/encode_sourcemap and decoded by an independent Source Map V3 decoder; every explicit fragment must decode to its own source, line, column and name, and the structural clauses of the statement are checked on the map.',
+    note='Trusted: harness/ref_sourcemap.py (decoder from the V3 text) and harness/ref_vlq.py, self-tested at the start of each run; the generated-position tracker in props/c09.py.',
+    technique='Hypothesis property-based testing (synthetic stream generator) + round trip through an independent decoder'),
+ 'C13': dict(
+    text='Grammar-derived programs rendered with comments of all kinds in Hypothesis-chosen gaps: acceptance and tree with/without capture, verbatim/located/ordered/unique attached comments against the reference lexer\'s comment list, and the print -> re-parse-with-capture round trip (same tree by calmjs and by the reference parser, same comment sequence).',
+    note=R1NOTE,
+    technique='metamorphic (capture on/off) + round-trip property-based testing with Hypothesis'),
+})
